@@ -28,6 +28,8 @@ def opt(b: Any, like: torch.Tensor, form: str):
     v = frf(b)
     if form == "number":
         return v                      # plain Python number
+    if form == "int":                 # a Python integer where the bound is integral
+        return int(v) if float(v).is_integer() else v
     return torch.full_like(like, v) if form == "tensor" else torch.tensor(v, dtype=like.dtype)
 
 
@@ -48,7 +50,7 @@ def replay_clamp(ctx: Ctx, recs: List[Dict[str, Any]]) -> None:
             x = torch.tensor([frf(r["x"]) for r in rs], dtype=dtype)
             exp_leaky = torch.tensor([frf(r["leaky"]) for r in rs], dtype=dtype)
             exp_clamp = torch.tensor([frf(r["clamp"]) for r in rs], dtype=dtype)
-            for as_tensor in ("scalar-tensor", "tensor", "number"):
+            for as_tensor in ("scalar-tensor", "tensor", "number", "int"):
                 l, h = opt(lo, x, as_tensor), opt(hi, x, as_tensor)
                 calls = [("leaky_clamp", lambda: F.leaky_clamp(x, l, h, clamped_slope=slope, inverted_output=mode), exp_leaky),
                          ("LeakyClamp", lambda: _module(LeakyClamp, ctx, "LeakyClamp", {"clamped_slope": slope, "inverted_output": mode})(x, l, h), exp_leaky)]
